@@ -694,6 +694,7 @@ def _state_normal(sp):
 
 
 _CALLS = None
+_RAISED = {}     # call name -> exception class of the last run (coverage tag only)
 
 
 def _calls():
@@ -857,9 +858,9 @@ def _run_monitor(sp, s):
         with tempfile.TemporaryDirectory(prefix='c20-') as tmp:
             try:
                 _calls()[s['call']](sp, tmp)
-                s['_raised'] = None
+                _RAISED[s['call']] = None
             except Exception as e:  # noqa: BLE001 - only the settings are observed
-                s['_raised'] = exc_kind(e)
+                _RAISED[s['call']] = exc_kind(e)
         return [getattr(sp.state, n) for n in NAMES]
 
 
@@ -1318,7 +1319,7 @@ def tags(s, res):
         out.append('monitor:' + c.split('.')[0])
         if c.startswith('io.g2.read'):
             out.append('monitor:g2-read')
-        if s.get('_raised'):
+        if _RAISED.get(c):
             out.append('monitor:call-raised')
     return out
 
@@ -1330,5 +1331,5 @@ def nontrivial(s, res):
     if k == 'state_nest':
         return True
     if k == 'monitor':
-        return not s.get('_raised')
+        return not _RAISED.get(s['call'])
     return True
